@@ -20,6 +20,7 @@ type env struct {
 	st        *stats
 	hashCache *txscript.HashCache // one midstate cache for all transactions of the run
 	sigCache  *txscript.SigCache  // one signature cache for all engine runs of the run
+	reps      int                 // random concretisations per case
 	infra     firstErr
 }
 
@@ -62,7 +63,9 @@ func hx(b []byte) string {
 
 // sigReplay is what a replay file of a signature case holds.
 func sigReplay(cs, ex tla.Value, p *plan, sp *spend, extra map[string]any) map[string]any {
-	m := map[string]any{"ctx": cs.F("ctx").Go(), "expected_digest": ex.F("digest").Go()}
+	// case_tla / expect_tla are the state itself: `check.sh C07 --replay <file>`
+	// re-runs exactly this case with the recorded seed
+	m := map[string]any{"ctx": cs.F("ctx").Go(), "expected_digest": ex.F("digest").String(), "case_tla": cs.String(), "expect_tla": ex.String()}
 	if sp != nil {
 		var buf bytes.Buffer
 		sp.tx.Serialize(&buf)
@@ -114,7 +117,14 @@ func ownField(txr, ctx, a tla.Value, fields ...string) bool {
 	return false
 }
 
+// sigCase replays one signature case on e.reps random concretisations.
 func (e *env) sigCase(st tla.State) {
+	for rep := 0; rep < e.reps; rep++ {
+		e.sigCaseOnce(st, rep)
+	}
+}
+
+func (e *env) sigCaseOnce(st tla.State, rep int) {
 	c := e.c
 	cs, ex := st["case"], st["expect"]
 	txr, ctx := cs.F("tx"), cs.F("ctx")
@@ -125,7 +135,7 @@ func (e *env) sigCase(st tla.State) {
 	nin, nout := txr.F("ins").Len(), txr.F("outs").Len()
 	annexed := !isNone(ctx.F("annex"))
 	tag := fmt.Sprintf("%s/%s/%s/in%d-of-%d/out%d/annex=%v", alg, ctx.F("shape").Str(), cls, ctx.F("idx").Int(), nin, nout, annexed)
-	cn := newConc(caseRng(c.Seed, cs.String()))
+	cn := newConc(caseRng(c.Seed, fmt.Sprintf("%s#%d", cs.String(), rep)))
 	c.AddTraces(1)
 	e.st.add("sig:"+fam, 1)
 	c.Distinct("sig/" + tag)
@@ -160,6 +170,16 @@ func (e *env) sigCase(st tla.State) {
 		return
 	}
 	replay := sigReplay(cs, ex, p0, sp0, map[string]any{"rendered_digest": hx(d0)})
+	before := replay["tx"].(string)
+	defer func() {
+		// computing digests and executing scripts leaves the transaction alone
+		var buf bytes.Buffer
+		sp0.tx.Serialize(&buf)
+		c.AddEval(1)
+		if after := hex.EncodeToString(buf.Bytes()); after != before {
+			c.Violation("digest:"+alg+":"+cls+":transaction-modified", fmt.Sprintf("%s: the transaction is %s after digest computation and script execution, it was %s", tag, after, before), replay)
+		}
+	}()
 
 	// (1) digest equality through the exported functions
 	var fresh *txscript.TxSigHashes
@@ -219,7 +239,6 @@ func (e *env) sigCase(st tla.State) {
 	// and without supplied midstates and signature cache
 	want0 := d0 != nil
 	acc0 := e.engine(sp0, fresh, want0, "digest:"+alg+":"+cls, tag+" (base)", replay)
-	_ = acc0
 
 	// (2) mutations
 	muts := ex.F("muts").Seq()
@@ -284,14 +303,26 @@ func (e *env) sigCase(st tla.State) {
 		if m == "field" && ownField(txr, ctx, ma, "ss", "wit", "pks") {
 			continue
 		}
+		if acc0 != want0 {
+			continue // already reported on the unmutated spend
+		}
 		want1 := want0 && !changes
 		if m == "item" && valEq(ma, ctx.F("key")) {
 			want1 = false // another key: whatever the digest
 		}
 		e.engine(sp1, fresh1, want1, "commit:"+alg+":"+cls+":"+name, tag+" mutation "+name, mreplay)
 	}
-	if len(c.Ev.Coverage.Samples) < 6 && fam == "script" && ht == 3 && ctx.F("idx").Int() == 1 {
-		c.Sample(map[string]any{"case": tag, "digest": hx(d0), "layout": clip(ex.F("digest").String(), 600), "mutations": len(muts)})
+	shape := ctx.F("shape").Str()
+	if rep == 0 && fam == "script" && ctx.F("idx").Int() == 1 && nin == 2 && nout == 2 &&
+		((alg == "legacy" && shape == "sepEmbedSig" && ht == 3) || (alg == "v0" && shape == "liveThenDead" && ht == 130) ||
+			(alg == "tapscript" && shape == "twoSeps" && ht == 1 && annexed)) {
+		effects := map[string]bool{}
+		for _, mr := range muts {
+			effects[mutName(txr, ctx, mr.Elems[0])] = mr.Elems[1].Bool()
+		}
+		c.Sample(map[string]any{"kind": "signature case", "case": tag, "script": ctx.F("script").String(), "digest_layout": ex.F("digest").String(),
+			"rendered_digest": hx(d0), "library_digest": hx(a0.d), "engine_accepts_signature_over_rendered_digest": acc0,
+			"mutation_changes_digest": effects})
 	}
 }
 
